@@ -189,7 +189,11 @@ def run_choose(kind, entries, requested, entry_point):
                     new = vals[-1] if vals else None
                     if requested is not None and new != requested:
                         viol.append(('new-port-not-the-requested', feat, 'requested %r, added %r' % (requested, new)))
-                    if new is not None and got != entry_addr(new):
+                    try:
+                        new_addr = entry_addr(new) if new is not None else None
+                    except ValueError:
+                        new_addr = ('not-an-address', new)      # (the last line of the SETCONF is not a port the client could have asked for)
+                    if new is not None and got != new_addr:
                         viol.append(('endpoint-not-the-new-port', feat, 'added %r, endpoint %r' % (new, got)))
                 # Tor's store afterwards still has every old listener
                 after = sim.conf['SocksPort']
